@@ -81,10 +81,11 @@ YieldsGroups == pc = "done" => out = Groups(cat)
 RefusedIffEmpty == (pc = "refused") <=> (Len(cat) = 0)
 Terminates == <>(pc \in {"done", "refused"})
 
-\* facts a consumer relies on, as constant-level theorems over the domain
-GroupFacts ==
-    \A c \in Cats : LET g == Groups(c) IN
+\* facts a consumer relies on, stated for the catalogue of the current behaviour (every catalogue of the
+\* domain is the catalogue of some initial state)
+GroupFactsOf(c) == LET g == Groups(c) IN
         /\ \A k \in 1..Len(g) : g[k] # <<>> /\ \A a, b \in 1..Len(g[k]) : c[g[k][a]][1] = c[g[k][b]][1]
         /\ \A k \in 1..(Len(g) - 1) : c[g[k][1]][1] < c[g[k + 1][1]][1]
         /\ Len(Flat(g)) = Len(c) /\ ToSet(Flat(g)) = 1..Len(c)
+GroupFacts == pc \in {"done", "refused"} => GroupFactsOf(cat)
 =============================================================================
